@@ -186,6 +186,11 @@ def _storage(run, prog, cls, fifo):
                     f"[{gtxt}] below capacity every arrival must be appended exactly once; this path does {_render(xs) or 'nothing'}")
             if not below and not full and xs:
                 bad("COUNT", line, f"no capacity test: {_render(xs)}", f"[{gtxt}] path modifies the container without testing the capacity")
+            if not below and not full and not xs:
+                # the arrival is dropped before the fill level is even looked at: below capacity it is lost
+                bad("COUNT", line, "arrival dropped without a capacity test",
+                    f"[{gtxt}] the call returns without storing the arrival and without having tested the capacity: while the "
+                    f"storage is not full every arrival must be appended (count = min(seen, capacity))")
             if full and fifo:
                 kinds = sorted(o.kind for o in xs)
                 if kinds != ["append", "popleft"]:
